@@ -40,6 +40,9 @@ def units(tier):
         us += func_units("pyrtcm.rtcmhelpers." + q, tier)
     us += func_units(f"{M}.__init__", tier)  # a payload that carries a message number is never refused by the constructor's guard
     us.append(ground_unit("C15.table_lemmas", table_lemmas))
+    # 'implemented types' / 'numbers without a payload definition': which numbers have a definition is the standard's (pinned) set
+    from spec import tablecheck
+    us.append(ground_unit("tables.identity_set", tablecheck.identity_set_lemmas))
     from pyvc import clientrun
     us.append(clientrun.unit("stub_serializes_to_same_frame", clientrun.lemma_parse_serialize))
     us.append(clientrun.unit("crc_split", clientrun.lemma_crc_split))
